@@ -61,6 +61,9 @@ struct Spec {
     abandon_first: bool,
     /// entity display strings: 0 short, 1 a 100-character name, 2 thirty CJK characters, 3 absent / empty
     names: u8,
+    /// reference store only: the first lookup / save / update of this step fails with this status byte
+    /// (any byte: known, reserved, extension or vendor range)
+    store_fault: Option<(u8, u8)>,
 }
 
 fn gen(seed: u64, idx: u64) -> Spec {
@@ -74,7 +77,7 @@ fn gen(seed: u64, idx: u64) -> Spec {
     Spec {
         op,
         store,
-        cfg: AuthCfg { counters: rng.bool(), id_len: Some(*rng.pick(&[16u8, 32, 64])), hmac: *rng.pick(&[HmacCfg::None, HmacCfg::WithoutUv, HmacCfg::UvOnly]), hmac_mc: rng.bool(), ..Default::default() },
+        cfg: AuthCfg { counters: rng.bool(), id_len: Some(*rng.pick(&[16u8, 32, 64])), hmac: *rng.pick(&[HmacCfg::None, HmacCfg::WithoutUv, HmacCfg::UvOnly]), hmac_mc: rng.bool(), transports: *rng.pick(&[0u8, 0, 1, 2, 3]), ..Default::default() },
         disc: *rng.pick(&[Disc::Full, Disc::Forced, Disc::OnlyNonDiscoverable]),
         uv_outcome: match rng.below(8) {
             0 => UvOutcome::Check { presence: true, verification: false },
@@ -118,13 +121,14 @@ fn gen(seed: u64, idx: u64) -> Spec {
         list_hints: rng.chance(1, 4),
         abandon_first: rng.chance(1, 6),
         names: *rng.pick(&[0u8, 0, 0, 1, 2, 3]),
+        store_fault: if rng.chance(1, 6) { Some((rng.below(3) as u8, *rng.pick(&[0x07u8, 0x28, 0x2e, 0x45, 0x7e, 0x80, 0xdf, 0xe0, 0xf0, 0xff, 0x01, 0x06, 0x7f]))) } else { None },
     }
 }
 
 fn spec_json(s: &Spec) -> Value {
     json!({"op": format!("{:?}", s.op), "store": format!("{:?}", s.store), "config": s.cfg.json(), "capability": format!("{:?}", s.disc),
         "uv_outcome": format!("{:?}", s.uv_outcome), "verification_capability": s.ver_cap, "rp": s.rp, "seeded_credentials": s.n_seeded,
-        "list": s.list, "algs": s.algs, "rk": s.rk, "up": s.up, "uv": s.uv, "prf": s.prf, "pin_auth": s.pin_auth, "client_data_hash_len": s.cdh_len, "hmac_secret_flag": s.hmac_secret_flag, "pin_protocol": s.pin_protocol, "list_descriptor_types": s.list_types, "list_transport_hints": s.list_hints, "a_command_is_abandoned_first": s.abandon_first, "entity_names": s.names})
+        "list": s.list, "algs": s.algs, "rk": s.rk, "up": s.up, "uv": s.uv, "prf": s.prf, "pin_auth": s.pin_auth, "client_data_hash_len": s.cdh_len, "hmac_secret_flag": s.hmac_secret_flag, "pin_protocol": s.pin_protocol, "list_descriptor_types": s.list_types, "list_transport_hints": s.list_hints, "a_command_is_abandoned_first": s.abandon_first, "entity_names": s.names, "store_fault": s.store_fault.map(|(k, c)| format!("{} fails with {c:#04x}", ["lookup", "save", "update"][usize::from(k)]))})
 }
 
 pub fn describe(args: &Args, idx: u64) -> CaseDesc {
@@ -168,7 +172,7 @@ fn store_digest(snaps: &[CredSnap], known_ids: &[Vec<u8>]) -> Vec<String> {
 /// Run the whole sequence on one authenticator: the first step is `base`, the following ones reuse its
 /// store / configuration; `flips[j]` changes the store capability before step j (reference store only).
 #[allow(clippy::too_many_arguments)]
-fn run_route<S>(base: &Spec, more: &[Spec], flips: &[Option<Disc>], store: S, via_trait: bool, snapshot: &dyn Fn(&Authenticator<S, RecUv>) -> Vec<CredSnap>, uv: RecUv, ids: &[Vec<u8>], set_disc: &dyn Fn(&mut Authenticator<S, RecUv>, Disc)) -> Vec<Digest>
+fn run_route<S>(base: &Spec, more: &[Spec], flips: &[Option<Disc>], store: S, via_trait: bool, snapshot: &dyn Fn(&Authenticator<S, RecUv>) -> Vec<CredSnap>, uv: RecUv, ids: &[Vec<u8>], set_disc: &dyn Fn(&mut Authenticator<S, RecUv>, Disc), set_fault: &dyn Fn(&mut Authenticator<S, RecUv>, Option<(u8, u8)>)) -> Vec<Digest>
 where
     S: CredentialStore<PasskeyItem = Passkey> + Sync + Send,
 {
@@ -199,6 +203,7 @@ where
             }
             uv_handle.set_yields(0);
         }
+        set_fault(&mut auth, s.store_fault);
         out.push(run_step(s, &mut auth, via_trait, snapshot, ids));
     }
     out
@@ -339,7 +344,12 @@ pub fn iso_case(args: &Args, idx: u64) -> CaseOut {
                     rig.store.insert_raw(c.clone());
                 }
                 let h = rig.store.clone();
-                let d = run_route(&s, &more, &flips, rig.store.clone(), via_trait, &move |_| h.snapshot(), rig.uv.clone(), &ids, &|a, d| a.store_mut().disc = d);
+                let d = run_route(&s, &more, &flips, rig.store.clone(), via_trait, &move |_| h.snapshot(), rig.uv.clone(), &ids, &|a, d| a.store_mut().disc = d, &|a, f| {
+                    a.store().clear_plan();
+                    if let Some((k, code)) = f {
+                        a.store().set_fault([crate::collab::Kind::Find, crate::collab::Kind::Save, crate::collab::Kind::Update][usize::from(k)], 0, code);
+                    }
+                });
                 save_args.push(rig.log.snapshot().iter().filter_map(|e| if let crate::collab::Ev::Save { rp_entity, user_entity, names, rk, up, uv, .. } = &e.ev { Some(format!("rp {rp_entity:?} user {} names {names:?} options rk={rk} up={up} uv={uv}", hex_short(user_entity))) } else { None }).collect::<Vec<String>>());
                 d
             }
@@ -352,9 +362,9 @@ pub fn iso_case(args: &Args, idx: u64) -> CaseOut {
                     let mut v: Vec<CredSnap> = a.store().values().map(snap_passkey).collect();
                     v.sort_by(|x, y| x.id.cmp(&y.id));
                     v
-                }, rig.uv.clone(), &ids, &|_, _| {})
+                }, rig.uv.clone(), &ids, &|_, _| {}, &|_, _| {})
             }
-            StoreKind::Single => run_route(&s, &more, &flips, creds.first().cloned(), via_trait, &|a| a.store().iter().map(snap_passkey).collect(), rig.uv.clone(), &ids, &|_, _| {}),
+            StoreKind::Single => run_route(&s, &more, &flips, creds.first().cloned(), via_trait, &|a| a.store().iter().map(snap_passkey).collect(), rig.uv.clone(), &ids, &|_, _| {}, &|_, _| {}),
         };
         routes.push(d);
     }
